@@ -267,7 +267,16 @@ def ref_fill_computes(fields, payload):
     def tail(i):
         return ''.join(v for _, v in vals[i:]) + payload
 
-    order = sorted(todo, key=lambda i: (0 if vals[i][0] in (FID[str(IPv4Fields.TOTAL_LENGTH.value)], FID[str(IPv6Fields.PAYLOAD_LENGTH.value)], FID[str(UDPFields.LENGTH.value)]) else 1, i))
+    # lengths first; then the checksums from the inside out: a UDP checksum covers everything the datagram carries, an SCTP packet with its
+    # checksum included (UDP port 132), so the SCTP checksum comes before it (RFC 768: the checksum is computed over the data as sent)
+    def rank(i):
+        f_ = vals[i][0]
+        if f_ in (FID[str(IPv4Fields.TOTAL_LENGTH.value)], FID[str(IPv6Fields.PAYLOAD_LENGTH.value)], FID[str(UDPFields.LENGTH.value)]):
+            return 0
+        if f_ == FID[str(SCTPFields.CHECKSUM.value)]:
+            return 1
+        return 2
+    order = sorted(todo, key=lambda i: (rank(i), i))
     for i in order:
         fid = vals[i][0]
         if fid == FID[str(IPv6Fields.PAYLOAD_LENGTH.value)]:
